@@ -149,9 +149,20 @@ def main(argv=None):
         results = [_work(t) for t in tasks]
     else:
         ctx = multiprocessing.get_context('fork')
+        limit = float(os.environ.get('VERIF_TIMEOUT', '900' if args.tier == 'quick' else '14400'))
         with ctx.Pool(jobs) as pool:
-            for r in pool.imap_unordered(_work, tasks, chunksize=1):
-                results.append(r)
+            it = pool.imap_unordered(_work, tasks, chunksize=1)
+            try:
+                for _ in range(len(tasks)):
+                    results.append(it.next(timeout=max(1.0, limit - (time.time() - t0))))
+            except multiprocessing.TimeoutError:
+                pool.terminate()
+                done = [json.dumps(jsonable(r['task']), sort_keys=True) for r in results]
+                left = [t for t in tasks if json.dumps(jsonable(t), sort_keys=True) not in done]
+                print('BROKEN-CHECK: watchdog: %d of %d tasks did not finish within %.0fs (possible livelock '
+                      'in the code under test or in the harness); unfinished e.g. %r'
+                      % (len(left), len(tasks), limit, left[:2]))
+                return 2
     results.sort(key=lambda r: json.dumps(jsonable(r['task']), sort_keys=True))
     crashes = [r for r in results if 'crash' in r]
     if crashes:
